@@ -19,6 +19,7 @@ use vlib::report::{catch, Acc, SubReport, Violation};
 struct Sink {
     ch: Ch,
     accepted: Rc<RefCell<Vec<u8>>>,
+    flushes: Rc<RefCell<u32>>,
 }
 
 impl Write for Sink {
@@ -49,6 +50,7 @@ impl Write for Sink {
         }
     }
     fn flush(&mut self) -> std::io::Result<()> {
+        *self.flushes.borrow_mut() += 1;
         Ok(())
     }
 }
@@ -77,8 +79,9 @@ fn writer_sub(ctx: &Ctx) -> SubReport {
             Acc::new,
             |ch| {
                 let accepted = Rc::new(RefCell::new(Vec::new()));
+                let flushes = Rc::new(RefCell::new(0u32));
                 let r = catch(|| {
-                    let mut w = rpm::Sha256Writer::new(Sink { ch: ch.clone(), accepted: accepted.clone() });
+                    let mut w = rpm::Sha256Writer::new(Sink { ch: ch.clone(), accepted: accepted.clone(), flushes: flushes.clone() });
                     let mut res = Ok(());
                     let mut byte = 0u8;
                     for l in script {
@@ -91,11 +94,12 @@ fn writer_sub(ctx: &Ctx) -> SubReport {
                             break;
                         }
                     }
-                    let _ = w.flush();
-                    (res.is_ok(), w.into_digest().as_ref().to_vec())
+                    let fl = w.flush();
+                    (res.is_ok(), w.into_digest().as_ref().to_vec(), fl.is_ok())
                 });
                 let acc_bytes = accepted.borrow().clone();
-                (r, acc_bytes)
+                let nfl = *flushes.borrow();
+                (r.map(|(a, b, c)| (a, b, c && nfl == 0)), acc_bytes)
             },
             |trace, (r, accepted), a: &mut Acc| {
                 a.evals += 1;
@@ -106,8 +110,11 @@ fn writer_sub(ctx: &Ctx) -> SubReport {
                 }
                 match r {
                     Err(p) => a.viol(panic_violation("hashing-writer", &p, case()).rank(si as u64)),
-                    Ok((ok, digest)) => {
+                    Ok((ok, digest, flush_lost)) => {
                         a.count(if ok { "all writes succeeded" } else { "a write failed" });
+                        if flush_lost {
+                            a.viol(Violation::new("hashing-writer", "flush() on the hashing writer returned Ok without flushing the writer it wraps (a buffering sink would still hold the bytes)", case()).sig("clause", "flush-not-forwarded").rank(si as u64));
+                        }
                         let want = sha2_digest(&accepted);
                         if digest != want {
                             a.viol(
@@ -138,7 +145,7 @@ fn writer_sub(ctx: &Ctx) -> SubReport {
     let mut s = SubReport::new(
         "hashing-writer",
         "C",
-        &format!("Sha256Writer over a scripted sink: all {} scripts of 1–3 write_all calls with lengths from {:?}; at every inner write the sink answers {{whole buffer, 1 byte, len−1 bytes, Interrupted, error}}; every answer sequence with ≤ {} deviations from 'whole buffer' (executions run to completion). Oracle: digest = SHA-256 of exactly the bytes the sink accepted. non-trivial = execution with ≥ 1 deviation", scripts.len(), lens, bound),
+        &format!("Sha256Writer over a scripted sink: all {} scripts of 1–3 write_all calls with lengths from {:?}; at every inner write the sink answers {{whole buffer, 1 byte, len−1 bytes, Interrupted, error}}; every answer sequence with ≤ {} deviations from 'whole buffer' (executions run to completion). Oracle: digest = SHA-256 of exactly the bytes the sink accepted; flush() reaches the wrapped writer. non-trivial = execution with ≥ 1 deviation", scripts.len(), lens, bound),
         total,
     )
     .extra("executions", json!(execs))
@@ -409,15 +416,18 @@ fn source_rewrite_sub(ctx: &Ctx) -> SubReport {
     let mtimes = [1_500_000_000u64, 1_500_000_001];
     let per = (contents.len() * mtimes.len()) as u64;
     let depth = if ctx.thorough() { 4 } else { 3 };
+    // destinations: a fresh one per call / the same one for every call / the same one in alternating spellings
+    const DEST_MODES: u64 = 3;
     let mut n = 0u64;
     let mut starts = vec![];
     for k in 2..=depth {
         starts.push((k, n));
-        n += per.pow(k as u32);
+        n += per.pow(k as u32) * DEST_MODES;
     }
     let acc = merge(vlib::par::par_fold(n, Acc::new, |i, acc| {
         let (k, base) = *starts.iter().rev().find(|(_, b)| i >= *b).unwrap();
-        let mut code = i - base;
+        let dest_mode = (i - base) % DEST_MODES;
+        let mut code = (i - base) / DEST_MODES;
         let path = env.dir().join(format!("slot-{}", i));
         let mut steps = vec![];
         let mut b = PackageBuilder::new("rewrite", "1", "MIT", "noarch", "s").compression(rpm::CompressionWithLevel::None).source_date(1_600_000_000u32);
@@ -432,7 +442,11 @@ fn source_rewrite_sub(ctx: &Ctx) -> SubReport {
             let f = std::fs::OpenOptions::new().write(true).open(&path).expect("open slot");
             f.set_modified(std::time::UNIX_EPOCH + std::time::Duration::from_secs(mt)).expect("set mtime");
             drop(f);
-            let dest = format!("/data/f{}", step);
+            let dest = match dest_mode {
+                0 => format!("/data/f{}", step),
+                1 => "/data/same".to_string(),
+                _ => if step % 2 == 0 { "/data/same".to_string() } else { "./data/same".to_string() },
+            };
             steps.push(json!({"content": String::from_utf8_lossy(c), "mtime": mt, "dest": dest}));
             match catch(|| b.with_file(&path, FileOptions::new(dest.clone()))) {
                 Ok(Ok(nb)) => b = nb,
@@ -443,6 +457,9 @@ fn source_rewrite_sub(ctx: &Ctx) -> SubReport {
                 }
             }
             want.push((dest, c.to_vec()));
+        }
+        if dest_mode != 0 {
+            want.clear(); // which of several calls for one destination wins is not specified: only the digests are judged
         }
         let _ = std::fs::remove_file(&path);
         acc.evals += 1;
@@ -467,7 +484,7 @@ fn source_rewrite_sub(ctx: &Ctx) -> SubReport {
                 w.sort();
                 let mut g = got;
                 g.sort();
-                if g != w {
+                if !w.is_empty() && g != w {
                     acc.viol(Violation::new("source-rewrite", "the packaged contents are not the contents the source had at each with_file call", case()).sig("clause", "content").rank(i));
                 }
             }
@@ -481,7 +498,7 @@ fn source_rewrite_sub(ctx: &Ctx) -> SubReport {
     SubReport::new(
         "source-rewrite",
         "A (operation sequences)",
-        &format!("one PackageBuilder, 2..={} with_file calls all from the same source path; before each call the file is rewritten with one of {} contents (two of equal length, one shorter, empty) and one of {} modification times: all {} sequences. Oracle: the four digest kinds recomputed independently, and every packaged content is the content at the time of its call", depth, contents.len(), mtimes.len(), n),
+        &format!("one PackageBuilder, 2..={} with_file calls all from the same source path; before each call the file is rewritten with one of {} contents (two of equal length, one shorter, empty) and one of {} modification times: all sequences × destinations {{a fresh one per call, the same one for every call, the same one in alternating '/P' and './P' spellings}} = {} builds. Oracle: the four digest kinds recomputed independently, and (fresh destinations) every packaged content is the content at the time of its call", depth, contents.len(), mtimes.len(), n),
         acc,
     )
 }
